@@ -47,6 +47,7 @@ type FuncContract struct {
 	Trusted   bool // contract is assumed, body not verified (dependency or declared trusted)
 	Pure      bool // modifies nothing (heap and ghost)
 	Allocates bool // pure but returns freshly allocated objects
+	Blocks    bool // may suspend the caller: shared ghost state is weakened
 	Sweep     bool // safety obligations only (zero annotation)
 	SweepTags []string
 	Requires  []*Clause
@@ -54,6 +55,7 @@ type FuncContract struct {
 	Invs      []*Clause
 	Sites     []*Clause
 	Updates   []*Clause // precise ghost-table updates performed by the function
+	Inits     []*Clause // ghost statements executed at function entry (scratch observation variables)
 	Modifies  []string
 	Preserves []string // with 'modifies heap': components that are nevertheless unchanged
 	HasMod    bool
@@ -64,6 +66,11 @@ type FuncContract struct {
 	External  bool // comes from /verif/contracts/deps
 	NoSafety  bool
 	DeferRule string
+	ResultSpec map[int]string  // result index -> fnspec name (function-typed results)
+	ParamSpec  map[string]string // parameter name -> fnspec name
+	Implements []string          // this function (closure) implements the named fnspecs
+	OwnRequires []*Clause        // requires written on the function itself (not inherited from a fnspec)
+	IsFnSpec   bool
 }
 
 type GhostDecl struct {
@@ -72,6 +79,8 @@ type GhostDecl struct {
 	Params   []QVar
 	Result   string // for func/var: "int", "bool", type text
 	Monotone bool
+	Scratch  bool // observation variable of one function: callers do not track it
+	Local    bool // thread-local: unaffected by blocking operations and other goroutines
 	Pkg      string
 	File     string
 	Line     int
@@ -94,6 +103,7 @@ type Contracts struct {
 	Axioms  []*Clause
 	TypeInvs []*Clause
 	pureMemo map[*ssa.Function]int
+	Defines  map[string]string // $NAME macros (textual)
 	Files   []string
 	Witness []string
 }
@@ -104,7 +114,7 @@ var clauseKeywords = map[string]bool{
 	"func": true, "requires": true, "ensures": true, "modifies": true, "pure": true, "trusted": true,
 	"loop": true, "site": true, "ghost": true, "nonnil": true, "nilable": true, "fields_copied": true,
 	"sweep": true, "package": true, "axiom": true, "allow": true, "witness": true, "nosafety": true,
-	"deferrule": true, "skipfield": true, "preserves": true, "typeinv": true, "updates": true,
+	"deferrule": true, "skipfield": true, "preserves": true, "typeinv": true, "updates": true, "init": true, "blocks": true, "define": true, "fnspec": true, "result": true, "param": true, "implements": true,
 }
 
 // LoadContracts reads //@ clauses from zz_contracts_verif.go files under repo and *.gvc files under depsDir.
@@ -128,6 +138,13 @@ func LoadContracts(repo, modPath, depsDir string) (*Contracts, error) {
 		return nil
 	})
 	sort.Strings(files)
+	deps, _ := filepath.Glob(filepath.Join(depsDir, "*.gvc"))
+	sort.Strings(deps)
+	for _, f := range deps {
+		if err := cs.parseFile(f, "", true); err != nil {
+			return nil, err
+		}
+	}
 	for _, f := range files {
 		rel, _ := filepath.Rel(repo, filepath.Dir(f))
 		pkg := modPath
@@ -138,14 +155,30 @@ func LoadContracts(repo, modPath, depsDir string) (*Contracts, error) {
 			return nil, err
 		}
 	}
-	deps, _ := filepath.Glob(filepath.Join(depsDir, "*.gvc"))
-	sort.Strings(deps)
-	for _, f := range deps {
-		if err := cs.parseFile(f, "", true); err != nil {
-			return nil, err
+	cs.Files = append(files, deps...)
+	// a function that implements a fnspec is verified against the spec's clauses
+	for _, fc := range cs.Funcs {
+		if len(fc.Implements) == 0 {
+			continue
+		}
+		fc.OwnRequires = append([]*Clause{}, fc.Requires...)
+		for _, impl := range fc.Implements {
+			spec := cs.Funcs["$fnspec."+impl]
+			if spec == nil {
+				return nil, fmt.Errorf("%s:%d: unknown fnspec %q", fc.File, fc.Line, impl)
+			}
+			fc.Requires = append(fc.Requires, spec.Requires...)
+			fc.Ensures = append(fc.Ensures, spec.Ensures...)
+			if spec.HasMod {
+				fc.HasMod, fc.Pure, fc.Allocates = true, spec.Pure, spec.Allocates
+				fc.Modifies = append(fc.Modifies, spec.Modifies...)
+			}
+			fc.Blocks = fc.Blocks || spec.Blocks
+			for t := range spec.Tags {
+				fc.Tags[t] = true
+			}
 		}
 	}
-	cs.Files = append(files, deps...)
 	return cs, nil
 }
 
@@ -197,8 +230,31 @@ func (cs *Contracts) parseFile(path, pkg string, external bool) error {
 	}
 	var cur *FuncContract
 	counts := map[string]int{}
+	if cs.Defines == nil {
+		cs.Defines = map[string]string{}
+	}
 	for _, rc := range raws {
 		text := rc.text
+		if strings.HasPrefix(text, "define ") {
+			r := strings.TrimSpace(text[7:])
+			i := strings.Index(r, "=")
+			if i < 0 {
+				return fmt.Errorf("%s:%d: define NAME = text", path, rc.line)
+			}
+			cs.Defines[strings.TrimSpace(r[:i])] = strings.TrimSpace(r[i+1:])
+			continue
+		}
+		if strings.Contains(text, "$") {
+			// longest names first so that $AB is not taken for $A
+			var names []string
+			for n := range cs.Defines {
+				names = append(names, n)
+			}
+			sort.Slice(names, func(i, j int) bool { return len(names[i]) > len(names[j]) })
+			for _, n := range names {
+				text = strings.ReplaceAll(text, "$"+n, cs.Defines[n])
+			}
+		}
 		var tags []string
 		if m := tagRe.FindStringSubmatch(text); m != nil {
 			for _, t := range strings.Split(m[1], ",") {
@@ -239,6 +295,46 @@ func (cs *Contracts) parseFile(path, pkg string, external bool) error {
 				cur = &FuncContract{Name: name, Pkg: pkg, File: path, Line: rc.line, Nilable: map[string]bool{}, Tags: map[string]bool{}, External: external, Trusted: external}
 				cs.Funcs[name] = cur
 			}
+		case "fnspec":
+			name := "$fnspec." + rest
+			if c, ok := cs.Funcs[name]; ok {
+				cur = c
+			} else {
+				cur = &FuncContract{Name: name, Pkg: pkg, File: path, Line: rc.line, Nilable: map[string]bool{}, Tags: map[string]bool{}, IsFnSpec: true, Trusted: false}
+				cs.Funcs[name] = cur
+			}
+		case "result", "param", "implements":
+			if cur == nil {
+				return fail("%s outside func", kw)
+			}
+			w := strings.Fields(rest)
+			switch {
+			case kw == "implements" && len(w) >= 1:
+				for _, x := range w {
+					cur.Implements = append(cur.Implements, strings.Trim(x, ","))
+				}
+			case kw == "result" && len(w) == 2 && w[0] == "fnspec":
+				if cur.ResultSpec == nil {
+					cur.ResultSpec = map[int]string{}
+				}
+				cur.ResultSpec[0] = w[1]
+			case kw == "result" && len(w) == 3 && w[1] == "fnspec":
+				n, err := strconv.Atoi(w[0])
+				if err != nil {
+					return fail("result <n> fnspec <name>")
+				}
+				if cur.ResultSpec == nil {
+					cur.ResultSpec = map[int]string{}
+				}
+				cur.ResultSpec[n] = w[2]
+			case kw == "param" && len(w) == 3 && w[1] == "fnspec":
+				if cur.ParamSpec == nil {
+					cur.ParamSpec = map[string]string{}
+				}
+				cur.ParamSpec[w[0]] = w[2]
+			default:
+				return fail("bad %s clause %q", kw, rest)
+			}
 		case "requires", "ensures":
 			if cur == nil {
 				return fail("%s outside func", kw)
@@ -252,6 +348,15 @@ func (cs *Contracts) parseFile(path, pkg string, external bool) error {
 			} else {
 				cur.Ensures = append(cur.Ensures, c)
 			}
+		case "init":
+			if cur == nil {
+				return fail("init outside func")
+			}
+			gs0, err := parseGhostSet(rest)
+			if err != nil {
+				return fail("%v", err)
+			}
+			cur.Inits = append(cur.Inits, &Clause{Kind: "init", Text: rest, Tags: tags, File: path, Line: rc.line, Ghost: gs0})
 		case "updates":
 			if cur == nil {
 				return fail("updates outside func")
@@ -305,6 +410,11 @@ func (cs *Contracts) parseFile(path, pkg string, external bool) error {
 			if rest == "allocates" {
 				cur.Allocates = true
 			}
+		case "blocks":
+			if cur == nil {
+				return fail("blocks outside func")
+			}
+			cur.Blocks = true
 		case "trusted":
 			if cur == nil {
 				return fail("trusted outside func")
@@ -387,7 +497,47 @@ func (cs *Contracts) parseFile(path, pkg string, external bool) error {
 			}
 			k2, r3 := splitWord(r2)
 			switch k2 {
-			case "requires", "ensures":
+			case "fnspec":
+			name := "$fnspec." + rest
+			if c, ok := cs.Funcs[name]; ok {
+				cur = c
+			} else {
+				cur = &FuncContract{Name: name, Pkg: pkg, File: path, Line: rc.line, Nilable: map[string]bool{}, Tags: map[string]bool{}, IsFnSpec: true, Trusted: false}
+				cs.Funcs[name] = cur
+			}
+		case "result", "param", "implements":
+			if cur == nil {
+				return fail("%s outside func", kw)
+			}
+			w := strings.Fields(rest)
+			switch {
+			case kw == "implements" && len(w) >= 1:
+				for _, x := range w {
+					cur.Implements = append(cur.Implements, strings.Trim(x, ","))
+				}
+			case kw == "result" && len(w) == 2 && w[0] == "fnspec":
+				if cur.ResultSpec == nil {
+					cur.ResultSpec = map[int]string{}
+				}
+				cur.ResultSpec[0] = w[1]
+			case kw == "result" && len(w) == 3 && w[1] == "fnspec":
+				n, err := strconv.Atoi(w[0])
+				if err != nil {
+					return fail("result <n> fnspec <name>")
+				}
+				if cur.ResultSpec == nil {
+					cur.ResultSpec = map[int]string{}
+				}
+				cur.ResultSpec[n] = w[2]
+			case kw == "param" && len(w) == 3 && w[1] == "fnspec":
+				if cur.ParamSpec == nil {
+					cur.ParamSpec = map[string]string{}
+				}
+				cur.ParamSpec[w[0]] = w[2]
+			default:
+				return fail("bad %s clause %q", kw, rest)
+			}
+		case "requires", "ensures":
 				c, err := mk("site-"+k2, r3)
 				if err != nil {
 					return err
@@ -482,6 +632,10 @@ func parseGhostDecl(kind, rest string) (*GhostDecl, error) {
 		}
 		tail := strings.TrimSpace(rest[j+1:])
 		if kind == "table" {
+			if strings.HasSuffix(tail, " local") || tail == "local" {
+				gd.Local = true
+				tail = strings.TrimSpace(strings.TrimSuffix(tail, "local"))
+			}
 			gd.Result = tail
 			if gd.Result == "" {
 				gd.Result = "int"
@@ -500,6 +654,10 @@ func parseGhostDecl(kind, rest string) (*GhostDecl, error) {
 		}
 	case "var":
 		n, t := splitWord(rest)
+		if strings.HasSuffix(t, " scratch") {
+			gd.Scratch = true
+			t = strings.TrimSpace(strings.TrimSuffix(t, "scratch"))
+		}
 		gd.Name, gd.Result = n, t
 		if t == "" {
 			gd.Result = "int"
